@@ -406,7 +406,30 @@ impl<'a> FnCtx<'a> {
                         out.push(Instr::Block(ty, b));
                     }
                     1 => {
-                        let b = self.block_body(r, true, ty, depth + 1);
+                        // sometimes: a local's value stays on the stack across a loop that
+                        // overwrites the local in every iteration and iterates more than once
+                        let cands: Vec<u32> = (0..self.locals.len() as u32).filter(|i| *i != self.counter).collect();
+                        let special = if !cands.is_empty() && r.chance(1, 4) { Some(*r.pick(&cands)) } else { None };
+                        if let Some(l) = special {
+                            out.push(Instr::LocalGet(l));
+                            self.stack.push(self.locals[l as usize]);
+                        }
+                        let mut b = self.block_body(r, true, ty, depth + 1);
+                        if let Some(l) = special {
+                            let set = match self.locals[l as usize] {
+                                Ty::I32 => Instr::Const32(r.i32v()),
+                                Ty::I64 => Instr::Const64(r.i64v()),
+                            };
+                            let mut nb = vec![set, if r.chance(1, 2) { Instr::LocalSet(l) } else { Instr::LocalTee(l) }];
+                            if matches!(nb[1], Instr::LocalTee(_)) {
+                                nb.push(Instr::Op(OP_DROP));
+                            }
+                            nb.append(&mut b);
+                            // counter-guarded back-edge (the loop label takes no values)
+                            let c = self.counter;
+                            nb.extend([Instr::LocalGet(c), Instr::Const32(1), Instr::Op(0x6b), Instr::LocalTee(c), Instr::Const32(0), Instr::Op(0x4a), Instr::BrIf(0)]);
+                            b = nb;
+                        }
                         out.push(Instr::Loop(ty, b));
                     }
                     _ => {
